@@ -212,50 +212,116 @@ def build_src(fam, L):
     return u * n + w + v * n
 
 
+EXT_MAX_LEN = 4100  # a family that still ramps up at 4L is measured at 8L, 16L, ... up to this input length
+
+
+def hot_file(md, src, preset):
+    """the library file in which most line events of this render happen (names the call site of a growth finding)"""
+    mon = sys.monitoring
+    per = {}
+    pkg = _pkg
+    budget = [LINES_PER_CHAR_MAX[preset] * (len(src) + 50)]
+
+    def on_line(code, line):
+        fn = code.co_filename
+        if not fn.startswith(pkg):
+            return mon.DISABLE
+        per[fn] = per.get(fn, 0) + 1
+        budget[0] -= 1
+        if budget[0] < 0:
+            raise Over()
+
+    mon.register_callback(_tool, mon.events.LINE, on_line)
+    mon.set_events(_tool, mon.events.LINE)
+    try:
+        md.render(src)
+    except Over:
+        pass
+    finally:
+        mon.set_events(_tool, 0)
+    if not per:
+        return ""
+    fn = max(per, key=per.get)
+    return fn[len(pkg):].lstrip("/")
+
+
 def measure(fam, preset, L, acc):
+    """returns (rows, error or None, hot file or None)"""
     md = C.build(CFGS[preset])
     rows = []
-    for mult in (1, 2, 4):
+
+    def one(mult):
         src = build_src(fam, L * mult)
-        try:
-            c, l, d, ab = cost(md, src, preset)
-        except RecursionError:
-            return None, f"RecursionError at input length {len(src)}"
-        except Exception:
-            return None, None  # crashes are C01's
+        c, l, d, ab = cost(md, src, preset)
         rows.append((len(src), c, l, d, ab))
-        if ab:
-            return rows, f"work exceeds the per-character bound at input length {len(src)} (measurement aborted)"
-    (l1, c1, n1, d1, _), (_, _, _, _, _), (l4, c4, n4, d4, _) = rows
-    if l4 <= l1:
-        return rows, None
+        return src, ab
+
+    def last_growth():
+        (l2, c2, n2, d2, _), (l4, c4, n4, d4, _) = rows[-2], rows[-1]
+        if l4 <= l2:
+            return 0.0, 0.0, 0
+        return (c4 / max(1, c2)) / (l4 / l2), (n4 / max(1, n2)) / (l4 / l2), d4 - d2
+
+    src = ""
+    mult = 1
+    try:
+        for mult in (1, 2, 4):
+            src, ab = one(mult)
+            if ab:
+                return rows, f"work exceeds the per-character bound at input length {len(src)} (measurement aborted)", None
+        if rows[-1][0] <= rows[0][0]:
+            return rows, None, None
+        # work per character ramps up until nesting reaches maxNesting (100 under js-default) and is flat from there:
+        # such a family is linear. A family that still grows faster than its input over the last doubling is
+        # measured further (8L, 16L, ...) until it flattens or the length cap is reached.
+        while True:
+            gcl, gll, dd = last_growth()
+            if gcl <= 1.25 and gll <= 1.25 and dd <= 40:
+                break
+            if len(src) * 2 > EXT_MAX_LEN or rows[-1][0] <= rows[-2][0]:
+                break
+            mult *= 2
+            acc.count("extended_measurements")
+            src, ab = one(mult)
+            if ab:
+                return rows, f"work exceeds the per-character bound at input length {len(src)} (measurement aborted)", None
+    except RecursionError:
+        return None, f"RecursionError at input length {len(build_src(fam, L * mult))}", None
+    except Exception:
+        return None, None, None  # crashes are C01's
+    (l1, c1, n1, d1, _) = rows[0]
+    (l4, c4, n4, d4, _) = rows[-1]
     gc = (c4 / max(1, c1)) / (l4 / l1)
     gl = (n4 / max(1, n1)) / (l4 / l1)
-    # work per character ramps up until nesting reaches maxNesting (100 under js-default) and is flat from there:
-    # such a family is linear. A super-linear family keeps growing between the two larger sizes as well.
-    (l2, c2, n2, _d2, _a2) = rows[1]
-    gc2 = (c4 / max(1, c2)) / (l4 / l2)
-    gl2 = (n4 / max(1, n2)) / (l4 / l2)
-    if gc2 <= 1.25:
-        gc = min(gc, gc2)
-    if gl2 <= 1.25:
-        gl = min(gl, gl2)
+    gcl, gll, dd = last_growth()
+    if gcl <= 1.25:
+        gc = min(gc, gcl)
+    if gll <= 1.25:
+        gl = min(gl, gll)
+    dmax = max(r[3] for r in rows)
     acc.maxi("growth_calls_max_x1000", int(gc * 1000)) if not _has_refdef(fam) else None
     acc.maxi("growth_lines_max_x1000", int(gl * 1000)) if not _has_refdef(fam) else None
-    acc.maxi("calls_per_char_max", int(c4 / l4))
-    acc.maxi("lines_per_char_max", int(n4 / l4))
-    acc.maxi("stack_depth_max_" + preset, max(d1, d4))
+    acc.maxi("calls_per_char_max", max(int(r[1] / r[0]) for r in rows))
+    acc.maxi("lines_per_char_max", max(int(r[2] / r[0]) for r in rows))
+    acc.maxi("stack_depth_max_" + preset, dmax)
     if c4 / l4 >= 3:
         acc.sig((fam, preset))
+    err = None
     if gc > GROWTH_MAX:
-        return rows, f"calls grow super-linearly: x{c4 / max(1, c1):.1f} for x{l4 / l1:.1f} input (normalised {gc:.2f})"
-    if gl > GROWTH_MAX:
-        return rows, f"line events grow super-linearly: x{n4 / max(1, n1):.1f} for x{l4 / l1:.1f} input (normalised {gl:.2f})"
-    if max(d1, d4) > DEPTH_MAX[preset]:
-        return rows, f"Python stack depth {max(d1, d4)} exceeds the nesting-proportional bound"
-    if d4 > d1 + 40 and d4 > 2 * d1:
-        return rows, f"Python stack depth grows with the input ({d1} -> {d4})"
-    return rows, None
+        err = f"calls grow super-linearly: x{c4 / max(1, c1):.1f} for x{l4 / l1:.1f} input (normalised {gc:.2f})"
+    elif gl > GROWTH_MAX:
+        err = f"line events grow super-linearly: x{n4 / max(1, n1):.1f} for x{l4 / l1:.1f} input (normalised {gl:.2f})"
+    elif dmax > DEPTH_MAX[preset]:
+        err = f"Python stack depth {dmax} exceeds the nesting-proportional bound"
+    elif dd > 40 and d4 > 2 * d1:
+        err = f"Python stack depth grows with the input ({d1} -> {d4})"
+    if err is None:
+        return rows, None, None
+    try:
+        hot = hot_file(md, build_src(fam, L * max(1, mult // 2)), preset)
+    except Exception:
+        hot = ""
+    return rows, err, hot
 
 
 def _has_refdef(fam):
@@ -297,7 +363,8 @@ def families(tier):
 def bounds(tier):
     th = tier == "thorough"
     return {"atoms": ATOMS, "named_families": len(NAMED), "families": len(families(tier)), "L": 500 if th else 400,
-            "L_named_thorough": [500, 5000, 25000] if th else None, "sizes": "L, 2L, 4L",
+            "L_named_thorough": [500, 5000, 25000] if th else None,
+            "sizes": f"L, 2L, 4L; while the last doubling still grows faster than the input (x1.25): 8L, 16L, ... up to {EXT_MAX_LEN} characters",
             "presets": list(CFGS), "growth_max": GROWTH_MAX, "calls_per_char_max": CALLS_PER_CHAR_MAX,
             "lines_per_char_max": LINES_PER_CHAR_MAX, "stack_depth_max": DEPTH_MAX}
 
@@ -327,23 +394,23 @@ def run_shard(sh, acc):
         fams = [tuple(f) for f in fams]
         for fam in fams:
             acc.case(3)
-            rows, err = measure(fam, preset, L, acc)
+            rows, err, hot = measure(fam, preset, L, acc)
             if err:
-                acc.violation("growth", err.split(":")[0].split(" at input")[0].split(" (")[0][:60], dict(case_of(fam, preset, L), rows=rows), err)
+                acc.violation("growth", err.split(":")[0].split(" at input")[0].split(" (")[0][:60], dict(case_of(fam, preset, L), rows=rows, hot=hot or ""), err)
         acc.sample("growth", dict(case_of(fams[0], preset, L), src_prefix=build_src(fams[0], L)[:40]), 1)
     else:
         _, preset, k, L = sh
         fam = ("named", k)
         acc.case(3)
-        rows, err = measure(fam, preset, L, acc)
+        rows, err, hot = measure(fam, preset, L, acc)
         if err:
-            acc.violation("growth", err.split(":")[0].split(" at input")[0].split(" (")[0][:60], dict(case_of(fam, preset, L), rows=rows), err)
+            acc.violation("growth", err.split(":")[0].split(" at input")[0].split(" (")[0][:60], dict(case_of(fam, preset, L), rows=rows, hot=hot or ""), err)
         acc.sample("growth", dict(case_of(fam, preset, L), src_prefix=build_src(fam, L)[:40]), 1)
 
 
 def check_case(case, acc):
     fam = tuple(case["family"])
     acc.case(3)
-    rows, err = measure(fam, case["preset"], case["L"], acc)
+    rows, err, hot = measure(fam, case["preset"], case["L"], acc)
     if err:
-        acc.violation("growth", err.split(":")[0].split(" at input")[0].split(" (")[0][:60], dict(case_of(fam, case["preset"], case["L"]), rows=rows), err)
+        acc.violation("growth", err.split(":")[0].split(" at input")[0].split(" (")[0][:60], dict(case_of(fam, case["preset"], case["L"]), rows=rows, hot=hot or ""), err)
